@@ -520,6 +520,15 @@ func (r *verifRec) Write(b []byte) (int, error) {
 	return len(b), nil
 }
 
+// body is everything written, as one string.
+func (r *verifRec) body() string {
+	out := ""
+	for _, c := range r.chunks {
+		out += string(c)
+	}
+	return out
+}
+
 // tokenResponse decodes the body as a token response (false if the body is not one JSON document).
 func (r *verifRec) tokenResponse() (*oidc.AccessTokenResponse, bool) {
 	if len(r.chunks) != 1 {
